@@ -215,6 +215,8 @@ def valid_tasks(tier, seed, oracles, post=None, with_edits=True, layouts=(), bas
         tasks.append(dict(base, kind="cmd", name=c, cap=cap))
     tasks.append(dict(base, kind="chains", depth=2 if tier == "quick" else 3))
     tasks.append(dict(base, kind="repeat"))
+    for i in range(8):
+        tasks.append(dict(base, kind="crosstags", part=i, parts=8))
     rparts = 4 if tier == "quick" else 16
     for i in range(rparts):
         tasks.append(dict(base, kind="requires", part=i, parts=rparts, one=3 if tier == "quick" else 4, two=2 if tier == "quick" else 3))
@@ -243,6 +245,13 @@ def _valid_words(t):
         for c in S.all_commands():
             for w in G.repeat_scripts(c):
                 yield w
+    elif k == "crosstags":
+        n = 0
+        for c in S.all_commands():
+            for w in G.crosstag_scripts(c):
+                n += 1
+                if n % t["parts"] == t["part"]:
+                    yield w
     elif k == "requires":
         for i, w in enumerate(G.require_scripts(t["one"], t["two"])):
             if i % t["parts"] == t["part"]:
